@@ -158,10 +158,18 @@ func TestVerifC10Algebra(t *testing.T) {
 						v = verifkit.Int64(t, "v")
 					}
 					if positive {
-						if c.Float {
-							v = int64(rapid.IntRange(4, 4000).Draw(t, "pv"))
-						} else {
-							v = int64(rapid.IntRange(1, 1<<40).Draw(t, "pv"))
+						// moderate values incl. zeros and negatives (a part may sum to exactly zero); the overall mean is lifted to >= 1 below
+						switch rapid.IntRange(0, 3).Draw(t, "pk") {
+						case 0:
+							v = 0
+						case 1:
+							v = int64(rapid.IntRange(-40, 40).Draw(t, "pv"))
+						default:
+							if c.Float {
+								v = int64(rapid.IntRange(4, 4000).Draw(t, "pv"))
+							} else {
+								v = int64(rapid.IntRange(1, 1<<40).Draw(t, "pv"))
+							}
 						}
 					}
 					p = append(p, v)
@@ -170,6 +178,10 @@ func TestVerifC10Algebra(t *testing.T) {
 			}
 			if positive {
 				ks.Excluded("mean-clamped-to-1")
+				// construct around the recorded finding: one large value in a part of its own until the overall mean is >= 1
+				for meanBelowOne(c) {
+					c.Parts = append(c.Parts, []int64{1 << 20})
+				}
 			}
 			return c
 		},
